@@ -73,15 +73,16 @@ Inductive dec : centry -> Prop :=
 | dec_com e cs :
     cs <> [] -> forallb legal_cline cs = true -> strip e = strip (com_centry cs) -> dec e
 | dec_ws e w' :
-    c_kind e = CWhite -> c_text e = 10%N :: w' -> forallb (fun c => mem c WS) w' = true ->
+    strip e = strip (ws_centry (10%N :: w')) -> forallb (fun c => mem c WS) w' = true ->
     (m <= length (c_text e) -> mem 10%N w' = true) -> dec e.
 
 Lemma dec_strip e e' : strip e = strip e' -> dec e -> dec e'.
 Proof.
-  intros Hs H. destruct H as [e cs key b1 sc b2 conts lastl H1 H2 H3|e cs H1 H2 H3|e w' H1 H2 H3 H4].
+  intros Hs H. destruct H as [e cs key b1 sc b2 conts lastl H1 H2 H3|e cs H1 H2 H3|e w' H1 H2 H3].
   - eapply dec_ent; eauto. congruence.
   - eapply dec_com; eauto. congruence.
-  - unfold strip in Hs. injection Hs as K1 K2 K3 K4. eapply dec_ws; rewrite <- ?K1, <- ?K3; eauto.
+  - apply (dec_ws e' w'); [congruence|exact H2|].
+    unfold strip in Hs. injection Hs as K1 K2 K3 K4. rewrite <- K3. exact H3.
 Qed.
 
 (* key and raw value of the entities *)
@@ -102,30 +103,51 @@ Lemma ws_legal w' : forallb (fun c => mem c WS) w' = true ->
   legal_blockb (BBlank (10%N :: w')) = true.
 Proof. intros H. unfold legal_blockb. cbn [forallb is_nil negb]. rewrite H. reflexivity. Qed.
 
+(* pending whitespace joins a leading whitespace entry *)
+Definition join (w : str) (out : list centry) : list centry :=
+  match out with
+  | e0 :: t => if is_white e0 then ws_centry (w ++ c_text e0) :: t else cflush w ++ out
+  | [] => cflush w
+  end.
+
+Lemma join_nonws w out : match out with e0 :: _ => is_white e0 = false | [] => True end ->
+  join w out = cflush w ++ out.
+Proof. destruct out as [|e0 t]; cbn; [rewrite app_nil_r; reflexivity|]. intros ->. reflexivity. Qed.
+
+Lemma noadj_after_ws e out : noadj (e :: out) -> is_white e = true ->
+  match out with e0 :: _ => is_white e0 = false | [] => True end.
+Proof. destruct out as [|y t]; cbn; [auto|]. intros [[H|H] _] He; congruence. Qed.
+
+Lemma cents_blank_opt w w' bs :
+  cents w (match w' with [] => bs | _ :: _ => BBlank w' :: bs end) = cents (w ++ w') bs.
+Proof. destruct w'; cbn [cents]; [rewrite app_nil_r|]; reflexivity. Qed.
+
 (* the reconstruction *)
 Lemma shape_blocks_n n : forall out, length out <= n ->
   nf m out -> noadj out -> Forall dec out ->
   exists bs, Forall legal_block bs /\ separatedb bs = true /\ license_okb bs = true /\
              file_text bs = concat (map c_text out) /\ brecs bs = krecs out /\
-             comments_of bs = ccoms out.
+             comments_of bs = ccoms out /\
+             (forall w, map strip (cents w bs) = map strip (join w out)).
 Proof.
   induction n as [|n IH]; intros out Hlen Hnf Hna Hdec.
   - destruct out; [|cbn in Hlen; lia]. exists []. repeat split; constructor.
   - destruct out as [|x out']; [exists []; repeat split; constructor|].
     pose proof (Forall_inv Hdec) as Hx. pose proof (Forall_inv_tail Hdec) as Hdec'.
-    destruct Hx as [e cs key b1 sc b2 conts lastl L1 L2 L3|e cs C1 C2 C3|e w' W1 W2 W3 W4].
+    destruct Hx as [e cs key b1 sc b2 conts lastl L1 L2 L3|e cs C1 C2 C3|e w' W0 W3 W4].
     + (* an entity and the whitespace after it *)
       destruct (strip_fields _ _ L3) as (K1 & K2 & K3 & K4). cbn in K1, K2, K3, K4.
       destruct Hnf as [Hn1 Hn2].
       assert (Hw : is_white e = false) by (unfold is_white; rewrite K1; reflexivity).
       specialize (Hn1 Hw). destruct out' as [|w out'']; [contradiction|]. destruct Hn1 as [Hww _].
       pose proof (Forall_inv Hdec') as Hdw. pose proof (Forall_inv_tail Hdec') as Hdec''.
-      destruct Hdw as [? ? ? ? ? ? ? ? _ _ Q|? ? _ _ Q|w w' W1 W2 W3 W4].
+      destruct Hdw as [? ? ? ? ? ? ? ? _ _ Q|? ? _ _ Q|w w' W0 W3 W4];
+        [| |destruct (strip_fields _ _ W0) as (W1 & _ & W2 & _); cbn in W1, W2].
       { apply strip_fields in Q. unfold is_white in Hww. destruct Q as [Q _]. cbn in Q. rewrite Q in Hww. discriminate. }
       { apply strip_fields in Q. unfold is_white in Hww. destruct Q as [Q _]. cbn in Q. rewrite Q in Hww. discriminate. }
       destruct Hn2 as [_ Hn3]. cbn in Hna. destruct Hna as [_ Hna2].
       assert (Hna3 : noadj out'') by (destruct out''; [exact I|apply Hna2]).
-      destruct (IH out'' ltac:(cbn in Hlen; lia) Hn3 Hna3 Hdec'') as (bs & B1 & B2 & B3 & B4 & B5 & B6).
+      destruct (IH out'' ltac:(cbn in Hlen; lia) Hn3 Hna3 Hdec'') as (bs & B1 & B2 & B3 & B4 & B5 & B6 & B7).
       exists (BEntity cs key b1 sc b2 conts lastl true ::
               match w' with [] => bs | _ => BBlank w' :: bs end).
       assert (Hbl : forall t, w' = t -> t <> [] -> legal_block (BBlank t)).
@@ -144,20 +166,26 @@ Proof.
         assert (is_comment e = false) as -> by (unfold is_comment; rewrite K1; reflexivity).
         assert (is_comment w = false) as -> by (unfold is_comment; rewrite W1; reflexivity).
         cbn [comments_of]. destruct w' as [|c t]; [exact B6|cbn [comments_of]; exact B6].
+      * intros w0. cbn [cents]. rewrite cents_blank_opt. cbn [eol app].
+        rewrite (join_nonws w0 (e :: w :: out'')) by exact Hw.
+        rewrite !map_app. cbn [map]. rewrite (B7 (10%N :: w')).
+        rewrite (join_nonws _ out'' (noadj_after_ws w out'' Hna2 Hww)).
+        rewrite map_app. cbn [cflush map]. rewrite L3, W0. reflexivity.
     + (* a standalone comment and the whitespace after it *)
       destruct (strip_fields _ _ C3) as (K1 & K2 & K3 & K4). cbn in K1, K2, K3, K4.
       destruct Hnf as [Hn1 Hn2].
       assert (Hw : is_white e = false) by (unfold is_white; rewrite K1; reflexivity).
       specialize (Hn1 Hw). destruct out' as [|w out'']; [contradiction|]. destruct Hn1 as [Hww Hneed].
       pose proof (Forall_inv Hdec') as Hdw. pose proof (Forall_inv_tail Hdec') as Hdec''.
-      destruct Hdw as [? ? ? ? ? ? ? ? _ _ Q|? ? _ _ Q|w w' W1 W2 W3 W4].
+      destruct Hdw as [? ? ? ? ? ? ? ? _ _ Q|? ? _ _ Q|w w' W0 W3 W4];
+        [| |destruct (strip_fields _ _ W0) as (W1 & _ & W2 & _); cbn in W1, W2].
       { apply strip_fields in Q. unfold is_white in Hww. destruct Q as [Q _]. cbn in Q. rewrite Q in Hww. discriminate. }
       { apply strip_fields in Q. unfold is_white in Hww. destruct Q as [Q _]. cbn in Q. rewrite Q in Hww. discriminate. }
       assert (Hnl : mem 10%N w' = true).
       { apply W4. unfold cneed, is_comment in Hneed. rewrite K1 in Hneed. exact Hneed. }
       destruct Hn2 as [_ Hn3]. cbn in Hna. destruct Hna as [_ Hna2].
       assert (Hna3 : noadj out'') by (destruct out''; [exact I|apply Hna2]).
-      destruct (IH out'' ltac:(cbn in Hlen; lia) Hn3 Hna3 Hdec'') as (bs & B1 & B2 & B3 & B4 & B5 & B6).
+      destruct (IH out'' ltac:(cbn in Hlen; lia) Hn3 Hna3 Hdec'') as (bs & B1 & B2 & B3 & B4 & B5 & B6 & B7).
       exists (BComment cs :: BBlank w' :: bs).
       repeat split.
       * constructor; [unfold legal_block; cbn; rewrite C2; destruct cs; [contradiction|reflexivity]|].
@@ -172,10 +200,18 @@ Proof.
         assert (is_comment e = true) as -> by (unfold is_comment; rewrite K1; reflexivity).
         assert (is_comment w = false) as -> by (unfold is_comment; rewrite W1; reflexivity).
         cbn [comments_of map]. rewrite K3. f_equal. exact B6.
+      * intros w0. cbn [cents app].
+        rewrite (join_nonws w0 (e :: w :: out'')) by exact Hw.
+        rewrite !map_app. cbn [map]. rewrite (B7 (10%N :: w')).
+        rewrite (join_nonws _ out'' (noadj_after_ws w out'' Hna2 Hww)).
+        rewrite map_app. cbn [cflush map]. rewrite C3, W0. reflexivity.
     + (* leading whitespace *)
+      destruct (strip_fields _ _ W0) as (W1 & _ & W2 & _). cbn in W1, W2.
+      assert (Hwe : is_white e = true) by (unfold is_white; rewrite W1; reflexivity).
+      pose proof (noadj_after_ws e out' Hna Hwe) as Hnext.
       destruct Hnf as [_ Hn2].
       assert (Hna2 : noadj out') by (destruct out'; [exact I|apply Hna]).
-      destruct (IH out' ltac:(cbn in Hlen; lia) Hn2 Hna2 Hdec') as (bs & B1 & B2 & B3 & B4 & B5 & B6).
+      destruct (IH out' ltac:(cbn in Hlen; lia) Hn2 Hna2 Hdec') as (bs & B1 & B2 & B3 & B4 & B5 & B6 & B7).
       exists (BBlank (10%N :: w') :: bs). repeat split.
       * constructor; [apply ws_legal; exact W3|exact B1].
       * exact B2.
@@ -185,15 +221,25 @@ Proof.
       * unfold ccoms. cbn [filter].
         assert (is_comment e = false) as -> by (unfold is_comment; rewrite W1; reflexivity).
         cbn [comments_of]. exact B6.
+      * intros w0. cbn [cents join]. rewrite Hwe, (B7 (w0 ++ 10%N :: w')).
+        rewrite (join_nonws _ out' Hnext), map_app. rewrite W2.
+        destruct (w0 ++ 10%N :: w') eqn:E; [destruct w0; discriminate|]. reflexivity.
 Qed.
 
 Theorem shape_blocks out : nf m out -> noadj out -> Forall dec out ->
   exists bs, Forall legal_block bs /\ adjacent_ok bs /\
              file_text bs = concat (map c_text out) /\ brecs bs = krecs out /\
-             comments_of bs = ccoms out.
+             comments_of bs = ccoms out /\ map strip (centries_of bs) = map strip out.
 Proof.
-  intros H1 H2 H3. destruct (shape_blocks_n (length out) out (le_n _) H1 H2 H3) as (bs & B1 & B2 & B3 & B4 & B5 & B6).
-  exists bs. repeat split; auto. unfold adjacent_ok, adjacent_okb. rewrite B2, B3. reflexivity.
+  intros H1 H2 H3. destruct (shape_blocks_n (length out) out (le_n _) H1 H2 H3) as (bs & B1 & B2 & B3 & B4 & B5 & B6 & B7).
+  exists bs. repeat split; auto.
+  - unfold adjacent_ok, adjacent_okb. rewrite B2, B3. reflexivity.
+  - unfold centries_of. rewrite (B7 []). destruct out as [|e0 t]; [reflexivity|]. cbn [join].
+    destruct (is_white e0) eqn:E; [|reflexivity]. cbn [app map]. f_equal.
+    pose proof (Forall_inv H3) as D. destruct D as [? ? ? ? ? ? ? ? _ _ Q|? ? _ _ Q|? w' W0 _ _].
+    + apply strip_fields in Q. unfold is_white in E. destruct Q as [Q _]. cbn in Q. rewrite Q in E. discriminate.
+    + apply strip_fields in Q. unfold is_white in E. destruct Q as [Q _]. cbn in Q. rewrite Q in E. discriminate.
+    + rewrite W0. destruct (strip_fields _ _ W0) as (_ & _ & T & _). cbn in T. rewrite T. reflexivity.
 Qed.
 
 (* the re-parse of a well-shaped entry list: no junk, the entities are its entities *)
@@ -205,7 +251,7 @@ Theorem shape_reparse out : nf m out -> noadj out -> Forall dec out ->
       ccoms out /\
     filter (is_kind KJunk) es = [].
 Proof.
-  intros H1 H2 H3. destruct (shape_blocks out H1 H2 H3) as (bs & B1 & B2 & B3 & B4 & B5).
+  intros H1 H2 H3. destruct (shape_blocks out H1 H2 H3) as (bs & B1 & B2 & B3 & B4 & B5 & _).
   destruct (C02_roundtrip_properties_multi bs B1 B2) as (es & E1 & E2 & E3 & E4).
   rewrite B3 in E1, E2, E3. exists es. split; [exact E1|]. split; [|split; [|exact E4]].
   - rewrite <- B4. unfold brecs. rewrite <- E2, map_map. reflexivity.
